@@ -321,18 +321,21 @@ class ExprMixin:
         if op in ("in", "not in"):
             a = self.resolve(a)
             r = self._contains(b, a)
-            if r is None and isinstance(a, Sym) and isinstance(b, DictV) and b.concrete() and b.pairs() \
-                    and self.kind_of(a) in (None, "key") and self.known_fact(Term("in", (a, b)).key()) is None:
+            if r is None and isinstance(a, (Sym, Term)) and isinstance(b, DictV) and b.concrete() and b.pairs() \
+                    and self.kind_of(a) in (None, "key") and self.known_fact(Term("in", (a, b)).key()) is None \
+                    and (isinstance(a, Sym) or a.op in ("getitem", "unpack", "mcall", "slice", "join", "attr")):
                 # membership of a symbolic key in a concrete token table: case split on WHICH token it equals
-                src = a.origin[1] if a.origin and a.origin[0] in ("key", "elem") and len(a.origin) > 1 and isinstance(a.origin[1], V) else None
-                no_ell = "ellipsis" in self.notkinds.get(a.uid, []) or \
+                ao = getattr(a, "origin", None)
+                src = ao[1] if ao and ao[0] in ("key", "elem") and len(ao) > 1 and isinstance(ao[1], V) else None
+                a_uid = getattr(a, "uid", None) or ("T:" + a.key())
+                no_ell = "ellipsis" in self.notkinds.get(a_uid, []) or \
                     (src is not None and self.known_fact(f"in(..., {src.key()})") is False)
                 cands = [k for k, _ in b.pairs() if not (is_ell(k) and no_ell)
                          and not (src is not None and self.known_fact(f"in({k.key()}, {src.key()})") is False)]
                 t = Term("in", (a, b), kind="bool", node=node)
                 c = self.ch.choose(len(cands) + 1, t.key())
                 if c < len(cands):
-                    self.aliases[a.uid] = cands[c]
+                    self.aliases[a_uid] = cands[c]
                     self.add_fact(t.key(), t, True)
                     self.emit("cond", node, term=t, value=True, unified=cands[c])
                     r = True
@@ -510,6 +513,12 @@ class ExprMixin:
                 if -n <= idx.value < n:
                     return recv.items[idx.value]
                 return self.implicit_raise(IndexError, node, op="getitem", operands=(recv, idx))
+        if isinstance(recv, Term) and recv.op == "range" and all(isinstance(a, Const) and isinstance(a.value, int) for a in recv.args) \
+                and isinstance(idx, Const) and isinstance(idx.value, int):
+            try:
+                return Const(range(*[a.value for a in recv.args])[idx.value])
+            except Exception as e:
+                return self.implicit_raise(type(e), node, op="getitem", operands=(recv, idx))
         if isinstance(recv, Const) and isinstance(idx, Const):
             try:
                 return Const(recv.value[idx.value])
@@ -845,6 +854,14 @@ class ExprMixin:
         if isinstance(it, DictV) and it.concrete():
             for k, _ in list(it.pairs()):
                 yield k
+            return
+        if isinstance(it, (ListV, TupleV)) and any(isinstance(x, Spread) for x in it.items):
+            # [a, *X, b] iterates a, then the members of X, then b
+            for x in list(it.items):
+                if isinstance(x, Spread):
+                    yield from self.iterate(x.value, node)
+                else:
+                    yield x
             return
         if isinstance(it, Const) and isinstance(it.value, (str, tuple, list, bytes)):
             for x in it.value:
